@@ -939,10 +939,13 @@ def judge_drained(h, i, last, specs, bad, clauses):
                      "P21-recreated-before-delete-delivered", "P10-holder-not-selected", "preexisting-overlap", "P15-deleted-before-finalizer"))
 
 
-def judge(ops, impl, want, ignore_envelope=False):
+def judge(ops, impl, want, ignore_envelope=False, strict_lines=None):
+    """strict_lines: optional set of line numbers of the `hist` lines of the histories to be judged without envelope
+    (those inside the fragment of the Lean history theorems); overrides ignore_envelope per history"""
     out, outside = [], {}
     for h in split_histories(ops, impl):
-        V, OUT = judge_history(h, want, ignore_envelope)
+        ie = ignore_envelope if strict_lines is None else (h.start in strict_lines)
+        V, OUT = judge_history(h, want, ie)
         for v in V:
             out.append(dict(line=h.start + 1 + v["idx"], case_start=h.start, msg=v["msg"], prop=v["prop"]))
         for p, cl in OUT.items():
